@@ -380,6 +380,19 @@ def reuse_body(case, ctx):
                       "%s: split %d differs from the split of a fresh object with the same parameters (test sets of %d and %d points; first call %s)",
                       what, k, f[1].size, r[1].size, "raised " + first if isinstance(first, str) else "warned %r" % first_warn)
         ctx.check(fresh_warn == reused_warn, "%s: warnings differ from those of a fresh object: %r vs %r", what, reused_warn, fresh_warn)
+        # nested / interleaved use: split() is a generator, and the same object is asked to split the other data set while the first
+        # generator is still being consumed (nested cross-validation, zip(cv.split(a), cv.split(b)))
+        cv2 = make()
+        with warnings.catch_warnings():
+            warnings.simplefilter("ignore")
+            outer = cv2.split(xb)
+            got = [next(outer)]
+            run(cv2, xa)
+            got += list(outer)
+        ctx.check(len(got) == len(fresh), "%s: %d splits instead of %d when another split() of the same object runs in between", what, len(got), len(fresh))
+        for k, (f, r) in enumerate(zip(fresh, got)):
+            ctx.check(np.array_equal(f[0], np.array(r[0])) and np.array_equal(f[1], np.array(r[1])),
+                      "%s: split %d changes when the same object splits another data set while this generator is still being consumed", what, k)
     ctx.label(case["kind"], "first_raised" if isinstance(first, str) else "first_ok", *(["first_warned"] if first_warn else []), *(["second_warned"] if fresh_warn else []))
     ctx.nt(not isinstance(fresh, str) and (isinstance(first, str) or bool(first_warn) or case["first"]["pops"] != case["second"]["pops"]))
 
